@@ -97,7 +97,7 @@ class Sched:
 class C18(verif.Spec):
     prop = "C18"
     comp = "proxyq"
-    lean_modules = ["ZvbiModel.Props.C18"]
+    lean_modules = ["ZvbiModel.Props.C18", "ZvbiModel.Props.C18Full"]
     harness = "proxyq_harness"
     harness_link_lib = True
     timeout_per_case = 0.5
@@ -117,8 +117,7 @@ class C18(verif.Spec):
                     "harness/proxyq_harness.c (fake capture device, virtual socket flow control via send()/accept()/select()) "
                     "+ lean/Driver/ProxyQ.lean: correspondence of every audit line",
                     "the pointer abstraction of the model: a cursor is its distance from the queue tail"]
-    open_statements = ["refcount_exact_full", "release_assert_unreachable_full", "each_frame_once_in_order_full",
-                       "service_union_full", "stalled_client_isolated_full"]
+    open_statements = []
     stats = {}
     extra_coverage = {"behaviour_stats": stats}
 
